@@ -53,6 +53,7 @@ type router struct {
 	realms map[wamp.URI]*realm
 
 	actionChan chan func()
+	done       chan struct{}
 	stopped    chan struct{}
 
 	realmTemplate *RealmConfig
@@ -77,6 +78,7 @@ func NewRouter(config *Config, logger stdlog.StdLog) (Router, error) {
 	r := &router{
 		realms:        map[wamp.URI]*realm{},
 		actionChan:    make(chan func()),
+		done:          make(chan struct{}),
 		stopped:       make(chan struct{}),
 		realmTemplate: config.RealmTemplate,
 		log:           logger,
@@ -178,7 +180,7 @@ func (r *router) AttachClient(client wamp.Peer, transportDetails wamp.Dict) erro
 	// Lookup or create realm to attach to.
 	var realm *realm
 	sync := make(chan error)
-	r.actionChan <- func() {
+	submitted := r.submit(func() {
 		if r.closed {
 			sendAbort(wamp.ErrSystemShutdown, nil)
 			sync <- errors.New("router is closing, not accepting new clients")
@@ -211,6 +213,10 @@ func (r *router) AttachClient(client wamp.Peer, transportDetails wamp.Dict) erro
 			r.log.Println("Auto-added realm:", hello.Realm)
 		}
 		sync <- nil
+	})
+	if !submitted {
+		sendAbort(wamp.ErrSystemShutdown, nil)
+		return errors.New("router is closed, not accepting new clients")
 	}
 	err = <-sync
 	if err != nil {
@@ -303,7 +309,10 @@ func (r *router) Close() {
 			close(done)
 		}
 		<-done
-		close(r.actionChan)
+		// Stop the router goroutine. The action channel is not closed, so
+		// that a late AttachClient, AddRealm or RemoveRealm is refused instead
+		// of panicking on a closed channel.
+		close(r.done)
 		if r.stopMemStats != nil {
 			close(r.stopMemStats)
 			<-r.memStatsStopped
@@ -317,9 +326,11 @@ func (r *router) Close() {
 func (r *router) AddRealm(config *RealmConfig) error {
 	var err error
 	sync := make(chan struct{})
-	r.actionChan <- func() {
+	if !r.submit(func() {
 		_, err = r.addRealm(config)
 		close(sync)
+	}) {
+		return errors.New("router is closed")
 	}
 	<-sync
 	return err
@@ -343,7 +354,7 @@ func (r *router) RemoveRealm(name wamp.URI) {
 	var realm *realm
 	var ok bool
 	sync := make(chan struct{})
-	r.actionChan <- func() {
+	if !r.submit(func() {
 		if realm, ok = r.realms[name]; ok {
 			// if found, go ahead and remove the realm from the router to
 			// prevent new clients from joining it.
@@ -351,6 +362,9 @@ func (r *router) RemoveRealm(name wamp.URI) {
 			r.log.Printf("Removed realm: %s", name)
 		}
 		close(sync)
+	}) {
+		// Router is closed; all realms are already gone.
+		return
 	}
 	// wait until the atomic func has completed.
 	<-sync
@@ -387,10 +401,26 @@ func (r *router) addRealm(config *RealmConfig) (*realm, error) {
 	return realm, nil
 }
 
+// submit hands an action to the router goroutine. It returns false if the
+// router has stopped, in which case the action will not run.
+func (r *router) submit(action func()) bool {
+	select {
+	case r.actionChan <- action:
+		return true
+	case <-r.stopped:
+		return false
+	}
+}
+
 // Single goroutine used to safely access router data.
 func (r *router) run() {
-	for action := range r.actionChan {
-		action()
+	defer close(r.stopped)
+	for {
+		select {
+		case action := <-r.actionChan:
+			action()
+		case <-r.done:
+			return
+		}
 	}
-	close(r.stopped)
 }
